@@ -94,6 +94,10 @@ Theorem C17_source_adder_table : forall m1 m2, 0 <= m1 <= 5 -> 0 <= m2 <= 5 ->
   nth (Z.to_nat m2) (nth (Z.to_nat m1) gen_add_table []) AFloat = add_table m1 m2.
 Proof. exact link_add_table. Qed.
 Print Assumptions C17_source_adder_table.
+Theorem C17_source_accumulator_dispatch : forall kernel_ops use_bias m,
+  gen_make_accumulator kernel_ops use_bias m = make_accumulator kernel_ops use_bias m.
+Proof. exact link_make_accumulator. Qed.
+Print Assumptions C17_source_accumulator_dispatch.
 Theorem C17_source_rules_are_the_model : forall kernel_ops use_bias m q1 q2,
   gen_FixedPointAccumulator kernel_ops use_bias m = fixed_acc kernel_ops use_bias m /\
   gen_Po2Accumulator kernel_ops use_bias m = po2_acc kernel_ops use_bias m /\
